@@ -73,6 +73,8 @@ pub enum Act {
     DialSfx,
     /// dial P1 "as a listener" (DialOpts::override_role, hole-punch style) with a PeerCondition
     DialOver { cond: u8 },
+    /// the behaviour notifies "any handler" of peer p, whether or not p is connected
+    NotifyAny { p: u8 },
 }
 
 #[derive(Clone, Copy, Debug, PartialEq, Eq, Serialize, Deserialize)]
@@ -800,6 +802,13 @@ where
                     }
                 }
             }
+            Which::C02 => {
+                if self.notify_seq < 1 {
+                    for p in [1u8, 2] {
+                        v.push(Act::NotifyAny { p });
+                    }
+                }
+            }
             Which::C58 => {
                 if self.notified.len() < 2 {
                     for &c in &live {
@@ -1055,6 +1064,10 @@ where
                 let cid = self.sys.cids[*c];
                 let peer_id = peer(self.conns[*c].peer.unwrap_or(1));
                 self.sys.swarm.behaviour_mut().probe_n(*f).push(ToSwarm::NotifyHandler { peer_id, handler: libp2p_swarm::NotifyHandler::One(cid), event: n });
+            }
+            Act::NotifyAny { p } => {
+                self.notify_seq += 1;
+                self.sys.swarm.behaviour_mut().probe().push(ToSwarm::NotifyHandler { peer_id: peer(*p), handler: libp2p_swarm::NotifyHandler::Any, event: 7 });
             }
             Act::DialExt => {
                 let opts = DialOpts::peer_id(peer(1)).addresses(vec![a(10)]).condition(PeerCondition::Always).extend_addresses_through_behaviour().build();
@@ -1427,6 +1440,12 @@ where
         }
     }
     choice::observe(&format!("{:?}|{:?}", s.sw_seq, next));
+    // drain suffix (default schedule) after every explored schedule: whatever the interleaving
+    // left behind must still come to exactly one terminal event and one close per id
+    if !s.drained {
+        s.sys.explore_schedule = false;
+        guard(&mut s, &mut |s| s.step(&Act::Drain))?;
+    }
     Ok(())
 }
 
@@ -1665,6 +1684,15 @@ pub fn run_c52(ctx: &Ctx) -> Outcome {
             let mut c = base(Which::C52);
             c.variant = variant;
             c.max_conns = 4;
+            c.pre_established = pre;
+            cfgs.push(c);
+        }
+    }
+    for variant in 4..10u8 {
+        for pre in 0..2u8 {
+            let mut c = base(Which::C52);
+            c.variant = variant;
+            c.max_conns = 3;
             c.pre_established = pre;
             cfgs.push(c);
         }
